@@ -363,3 +363,10 @@ Proof.
   rewrite pipeline in Hm by assumption.
   apply andb_true_iff in Hm. destruct Hm as [Hm _]. exact Hm.
 Qed.
+
+Theorem mcase_model_implies_spec cfg (m : mcase) : all_off cfg -> Forall gcase_wf m ->
+  mcase_model_ok cfg m = true -> mcase_spec_ok m = true.
+Proof.
+  intros Hc Hwf Hm. unfold mcase_model_ok, mcase_spec_ok in *. rewrite forallb_forall in *.
+  rewrite Forall_forall in Hwf. intros c Hin. apply (gcase_model_implies_spec cfg); auto.
+Qed.
